@@ -30,18 +30,20 @@ def make_cases(tier, seed):
     cases = []
     ci = 0
 
-    def add(text, kind, expected, n=k, only=None):
+    def add(text, kind, expected, n=k, only=None, fault=0):
         nonlocal ci
-        for _ in range(n):
+        for j in range(n + fault):
             cfg = only if only is not None else cfgs[ci % len(cfgs)]
             ci += 1
-            cases.append(geom.Case(len(cases), text, cfg, kind, expected=expected))
+            c = geom.Case(len(cases), text, cfg, kind, expected=expected)
+            c.fault = j >= n  # solver outcomes after failed attempts (harness-side fault injection)
+            cases.append(c)
 
     for i in range(n_rich):
         text, exp = geom.rich_program(seed * 1009 + i)
-        add(text, "rich", exp)
+        add(text, "rich", exp, fault=1 if quick else 2)
     for i in range(n_scalar):
-        add(geom.scalar_program(seed * 1013 + i), "scalar", None)
+        add(geom.scalar_program(seed * 1013 + i), "scalar", None, fault=1 if quick else 2)
     for i in range(5 if quick else 40):
         # far-apart lamps on two producers: relay chains of different networks next to each other
         text, exp = geom.far_program(seed * 1017 + i)
@@ -95,8 +97,9 @@ def run(tier, seed, t0):
     wit = geom.witnesses(PROP)
     cases = make_cases(tier, seed)
     allc = [w for _, w in wit] + cases
-    geom.compile_cases(allc)
-    H.log(f"C08: compiled {len(allc)} cases")
+    geom.compile_cases([c for c in allc if not c.fault])
+    geom.compile_cases_faulty([c for c in allc if c.fault])
+    H.log(f"C08: compiled {len(allc)} cases ({sum(1 for c in allc if c.fault)} with injected solver failures)")
 
     # certificates
     coq_cases = []
@@ -193,13 +196,20 @@ def run(tier, seed, t0):
         "rule": "programs: py/gen_rich.py (loops, functions, lamps at fixed tiles), py/gen_scalar.py, hand-written multi-tile / "
                 "far-apart / negative-coordinate placements, arithmetic chains; each compiled by the real compiler under "
                 "configurations drawn round-robin from {no poles, small, medium, big, substation} x {optimise on, off} x "
-                "{solver time limit 0, 1, default}; one PRNG seeded from VERIF_SEED.  non-trivial = a kernel-checked "
+                "{solver time limit 0, 1, default}, plus one build per generated program in which the first two solver calls of every "
+                "layout attempt are made to fail (relaxation ladder); one PRNG seeded from VERIF_SEED.  non-trivial = a kernel-checked "
                 "valid_layout certificate on a blueprint with at least 3 entities and one wire, distinct by (text, configuration)",
         "status_histogram": hist,
         "configurations_passed": cfg_hist,
         "entities_per_blueprint": {"min": sizes[0] if sizes else 0, "median": sizes[len(sizes) // 2] if sizes else 0,
                                    "max": sizes[-1] if sizes else 0},
         "relay_partition": part,
+        "observation_entities_off_tile_grid": {
+            "count": sum(len(geom.off_grid(c.bpj)) for c in passed),
+            "by_prototype": sorted({e["name"] for c in passed[:40] for e in geom.off_grid(c.bpj)}),
+            "note": "not part of the property text: constant combinators (1x1 in the game data) are planned with a 1x2 "
+                    "footprint and emitted with an integer y centre"},
+        "passed_after_injected_solver_failures": sum(1 for c in passed if c.fault),
         "blueprints_with_relay_poles": sum(1 for c in passed if not c.cfg[0] and any(
             e["name"] in geom.bx.POLES for e in geom.bx.entities_of(c.bpj))),
         "print_assumptions": print_assumptions("Props/C08.v"),
